@@ -62,6 +62,13 @@ CLAIMED = {
  'C18': dict(level='proof', ref='5/C18',
    text='Hill and Shekel tables row by row (seeded sample quick / all rows thorough): minimum and maximum rows as unsat certificates over the whole range (value within 1e-4, a global extremiser within 1e-4 of the range of the tabulated location), Lipschitz rows via the derivative of the rational function the real code produced (|f\'|<=L(1+1e-3) unsat of the negation, >=L(1-1e-3) sat); metadata of every instance of every family as ground facts (stated as such).',
    note='z3 nlsat; symex proxies; symbolic differentiation of the produced term; metadata half needs no solver'),
+
+ 'C14': dict(level='model_checking', ref='5/C14',
+   text='Ground facts for all 400 (n,k), each function constructed twice in a row: minimisers in the box, disjoint balls, class distance and radius, f_1=-1<f_i, declared optimum = minimiser 1, data bit-identical to the committed reference record of the pinned tree; for a sample of functions (n=2, thorough also n=3) the real CalculateDFunction executed on a symbolic point, one path per attraction ball plus the paraboloid path, with z3 deciding for every point: paraboloid identity outside the balls, value >= f_i inside ball i, prescribed value at the centre, cubic meets paraboloid on the sphere.',
+   note='z3 nlsat; symex proxies / NPShim; the generator runs natively (no inputs but (n,k)); equality with the original C generator is not decidable offline'),
+ 'C15': dict(level='model_checking', ref='5/C15',
+   text='Self-composition per family instance: P(x); evaluations of a sibling of the same family, of another family, of P elsewhere / with one coordinate kept; P(x) again -- with x, x\' symbolic points of the box: the two values are equal terms (solver), the supplied holder is returned and filled, the earlier holder keeps its value, the point and a deep snapshot of the problem object and generation tables are unchanged; the same sequences on concrete points compared with values computed in a clean forked process (history independence). Hill, Shekel, Shekel4, Grishagin, GKLS, Rastrigin, XSquared, StronginC3.',
+   note='z3; symex proxies; unmodelled functions (exp, sin of non-multiples of pi, sqrt outside GKLS) are opaque functions of their argument term, which is sound for equality of two evaluations'),
 }
 checks = []
 for p in props:
